@@ -146,18 +146,21 @@ func (c *MJTableComponent) GetDefaultAttribute(name string) string {
 func (c *MJTableComponent) writeInnerTableContent(w io.StringWriter) error {
 	// If we have children (HTML elements), we need to reconstruct the original HTML
 	if len(c.Node.Children) > 0 {
-		// Add children as HTML elements (skip text content to avoid extra whitespace)
+		// Add children as HTML elements (skip text content to avoid extra whitespace); the rows are
+		// author HTML, so the inline mj-style rules apply to them like to mj-text content
+		var rows strings.Builder
 		for _, child := range c.Node.Children {
-			if err := c.reconstructHTMLElement(child, w); err != nil {
+			if err := c.reconstructHTMLElement(child, &rows); err != nil {
 				return err
 			}
 		}
-		return nil
+		_, err := w.WriteString(c.ApplyInlineStylesToHTMLContent(rows.String()))
+		return err
 	}
 
 	// If no children, write the text content with whitespace trimmed
 	if c.Node.Text != "" {
-		_, err := w.WriteString(strings.TrimSpace(c.Node.Text))
+		_, err := w.WriteString(c.ApplyInlineStylesToHTMLContent(strings.TrimSpace(c.Node.Text)))
 		return err
 	}
 
